@@ -3,6 +3,9 @@ import PrysmVerif.Lemmas.C11Maps
 import PrysmVerif.Lemmas.C11Py
 import PrysmVerif.Lemmas.C11Real
 import PrysmVerif.Lemmas.C11Sem
+import PrysmVerif.Lemmas.C11Names
+import Mathlib.Data.List.Nodup
+import Mathlib.Data.List.Perm.Subperm
 import Mathlib.Tactic.LinearCombination
 import Mathlib.Data.Set.Function
 /-!
@@ -540,5 +543,128 @@ example : Valid 4 (-2) ∧ ¬ Valid 4 3 ∧ ¬ Valid 2 4 := by decide
 example : Generated.C11.nmToAnsiJ 4 (-2) = 11 ∧ Generated.C11.nmToFringe 4 (-2) = 13 := by
   rw [gen_nmToAnsiJ _ _ (by decide), gen_nmToFringe _ _ (by decide)]; decide
 example : nmToNoll 4 (-2) = 13 ∧ mnToXyJ 2 1 = 8 := by decide
+
+
+/-! ## 4. (session 3) the other index-convention helpers: names of the orders, pairing of the ±m terms -/
+
+/-- `_name_accessor` (whole body, exact rational arithmetic) is the ordinal of the model on every valid order with `m ≠ 0`, `n ≥ 2`
+    (the orders `nm_to_name` passes to it): position of `n` in its column, odd columns counted from `n = 3` -/
+theorem gen_nameAccessor (n m : Int) (h : Valid n m) (hm : m ≠ 0) (hn : 2 ≤ n) :
+    Generated.C11.nameAccessor n m = some (Model.C11.nameAccessor n m) := by
+  first
+  | exact rfl
+  | skip
+    obtain ⟨h1, h2⟩ := h
+    unfold Generated.C11.nameAccessor Model.C11.nameAccessor
+    simp only [Generated.C11.isOdd, iabs] at *
+    by_cases ho : m % 2 = 1
+    · -- odd column: n is odd, n ≥ 3
+      obtain ⟨k, rfl⟩ : ∃ k, n = 2 * k + 1 := ⟨(n - 1) / 2, by split at h2 <;> omega⟩
+      have hk : 1 ≤ k := by omega
+      have e1 : (2 * k + 1 - 1) / 2 = k := by omega
+      simp only [hm, ho, false_and, if_false, if_true, ne_eq, one_ne_zero, not_false_eq_true, true_and, ge_iff_le,
+        show (3 : Int) ≤ 2 * k + 1 by omega, e1]
+      generalize hv : Py.int _ = v
+      have hz : v = k := by rw [← hv]; apply Py.int_shift0; push_cast; ring1
+      subst hz
+      simp only [show ¬ (v < 0) by omega, if_false]
+    · -- even column
+      have ho' : m % 2 = 0 := by omega
+      simp only [hm, ho, ho', false_and, if_false, ne_eq, not_true_eq_false, zero_ne_one]
+      by_cases hneg : m < 0
+      · obtain ⟨k, rfl⟩ : ∃ k, n = 2 * k + -m := ⟨(n + m) / 2, by rw [if_pos hneg] at h2; omega⟩
+        simp only [hneg, if_true]
+        have e1 : (2 * k + -m - -m) / 2 = k := by omega
+        rw [e1]
+        congr 1; apply Py.int_shift0; push_cast; ring1
+      · obtain ⟨k, rfl⟩ : ∃ k, n = 2 * k + m := ⟨(n - m) / 2, by rw [if_neg hneg] at h2; omega⟩
+        simp only [hneg, if_false]
+        have e1 : (2 * k + m - m) / 2 = k := by omega
+        rw [e1]
+        congr 1; apply Py.int_shift0; push_cast; ring1
+
+/-- the ordinal `nm_to_name` gives a spherical term `(n, 0)` is `n/2 - 1`, every even `n` -/
+theorem gen_sphericalAccessor (n m : Int) (hn : n % 2 = 0) :
+    Generated.C11.sphericalAccessor n m = Model.C11.sphericalAccessor n := by
+  first
+  | exact rfl
+  | skip
+    obtain ⟨k, rfl⟩ : ∃ k, n = 2 * k := ⟨n / 2, by omega⟩
+    unfold Generated.C11.sphericalAccessor Model.C11.sphericalAccessor
+    have e1 : (2 * k) / 2 = k := by omega
+    rw [e1]
+    generalize hv : Py.int _ = v
+    first
+    | (have hz : v = k - 1 := by rw [← hv]; apply Py.int_shift0; push_cast; ring1
+       rw [hz])
+    | (have hz : v = k := by rw [← hv]; apply Py.int_shift0; push_cast; ring1
+       rw [hz])
+
+/-- the key under which `zernikes_to_magnitude_angle_nmkey` collects coefficients is `(n, |m|)`, all `n, m` -/
+theorem gen_magangKey (n m : Int) : Generated.C11.magangKey n m = Model.C11.magangKey n m := by
+  first
+  | exact rfl
+  | (unfold Generated.C11.magangKey Model.C11.magangKey iabs
+     refine Prod.ext ?_ ?_ <;> simp only [] <;> (try split) <;> omega)
+
+/-- the ordinal-name and column-name tables `_names`, `_names_m` have pairwise different keys and pairwise different words -/
+theorem names_tables_distinct :
+    (Generated.C11.namesTable.map Prod.fst).Nodup ∧ (Generated.C11.namesTable.map Prod.snd).Nodup ∧
+    (Generated.C11.namesMTable.map Prod.fst).Nodup ∧ (Generated.C11.namesMTable.map Prod.snd).Nodup := by
+  decide
+
+/-- `nm_to_name` is one-to-one on the valid orders at the level of its structure (kind, ordinal, column name, suffix): two valid
+    orders with the same ordinal, the same `|m|` entry of the name table and the same suffix are the same order — so no two
+    coefficients of an expansion share a name, and `zernikes_to_magnitude_angle` (a dict keyed by names) loses none.  The ordinals
+    are tied to the source by `gen_nameAccessor` / `gen_sphericalAccessor`, the tables by `names_tables_distinct`; that the real
+    strings have this structure is compared on every valid order up to the tier bound (harness item `name`). -/
+theorem name_key_injective (n m n' m' : Int) (h : Valid n m) (h' : Valid n' m')
+    (e : nameKey n m = nameKey n' m') : n = n' ∧ m = m' :=
+  nameKey_injective n m n' m' h h' e
+
+/-- the same over the generated ordinal: inside a column `m ≠ 0` the ordinal `_name_accessor` returns determines `n` -/
+theorem name_accessor_injective_in_column (n n' m : Int) (h : Valid n m) (h' : Valid n' m) (hm : m ≠ 0) (hn : 2 ≤ n) (hn' : 2 ≤ n')
+    (e : Generated.C11.nameAccessor n m = Generated.C11.nameAccessor n' m) : n = n' := by
+  rw [gen_nameAccessor n m h hm hn, gen_nameAccessor n' m h' hm hn'] at e
+  have e' := Option.some.inj e
+  obtain ⟨h1, h2⟩ := h
+  obtain ⟨h1', h2'⟩ := h'
+  unfold Model.C11.nameAccessor at e'
+  rcases iabs_cases m with ⟨s, a⟩ | ⟨s, a⟩ <;> rw [a] at h1 h2 h1' h2' e' <;> split_ifs at e' <;> omega
+
+example : Valid 6 4 ∧ Valid 4 4 ∧ Generated.C11.nameAccessor 6 4 = some 2 ∧ Generated.C11.nameAccessor 4 4 = some 1 := by
+  refine ⟨by decide, by decide, ?_, ?_⟩ <;> (rw [gen_nameAccessor _ _ (by decide) (by decide) (by decide)]; rfl)
+
+/-- two coefficients land in the same magnitude/angle group exactly when they are the `+m` and `-m` terms of one `(n, |m|)` -/
+theorem magang_pairs_exactly_pm (n m n' m' : Int) :
+    Generated.C11.magangKey n m = Generated.C11.magangKey n' m' ↔ n = n' ∧ (m = m' ∨ m = -m') := by
+  rw [gen_magangKey, gen_magangKey]
+  unfold Model.C11.magangKey iabs
+  simp only [Prod.mk.injEq]
+  constructor
+  · rintro ⟨a, b⟩; refine ⟨a, ?_⟩; split_ifs at b <;> omega
+  · rintro ⟨a, b⟩; refine ⟨a, ?_⟩; split_ifs <;> omega
+
+/-- in a coefficient list that names each order at most once every group has at most two members — `arctan2(*value)` is never
+    called with three arguments (no TypeError) -/
+theorem magang_group_size_le_two (l : List (Int × Int)) (hl : l.Nodup) (k : Int × Int) :
+    (l.filter (fun p => Generated.C11.magangKey p.1 p.2 = k)).length ≤ 2 := by
+  have hnd : (l.filter (fun p => Generated.C11.magangKey p.1 p.2 = k)).Nodup := hl.filter _
+  have hsub : (l.filter (fun p => decide (Generated.C11.magangKey p.1 p.2 = k))) ⊆ [(k.1, k.2), (k.1, -k.2)] := by
+    intro p hp
+    have hp2 := (List.mem_filter.mp hp).2
+    simp only [decide_eq_true_eq] at hp2
+    rw [gen_magangKey] at hp2
+    unfold Model.C11.magangKey iabs at hp2
+    have a : p.1 = k.1 := by rw [← hp2]
+    have b : p.2 = k.2 ∨ p.2 = -k.2 := by
+      rw [← hp2]; simp only []; split_ifs <;> omega
+    rcases b with b | b
+    · exact List.mem_cons.mpr (Or.inl (Prod.ext a b))
+    · exact List.mem_cons.mpr (Or.inr (List.mem_singleton.mpr (Prod.ext a b)))
+  exact (List.Nodup.subperm hnd hsub).length_le
+
+example : ∃ l : List (Int × Int), l.Nodup ∧ (l.filter (fun p => Generated.C11.magangKey p.1 p.2 = (2, 2))).length = 2 :=
+  ⟨[(2, 2), (3, 1), (2, -2)], by decide, by decide⟩
 
 end C11
